@@ -518,6 +518,12 @@ def classify(case, lres, lsnaps, steps, final_local, final_remote, rerun, c31_pr
     if r_err is None:
         i2, kind2 = first_divergence(lres, lsnaps, r_steps, final_local, r_final)
         if i2 is None:
+            if taint and taint.startswith("tell()"):
+                # exact prediction of this mechanism: the value is short by the pending byte count
+                t_st = steps[tj]
+                if not (t_st["pre"]["flags"] & F_APPEND) and t_st["res"][0] == "ok" and lres[tj][0] == "ok" \
+                        and t_st["res"][1] != lres[tj][1] - t_st["pre"]["wbuf"]:
+                    taint = "unclassified: tell() with pending writes is off by something other than the pending byte count"
             if taint:
                 return taint, tj, kind, None, steps
             return ("unclassified: vanishes when flush()/seek(0,CUR) are inserted, no buffer state seen; "
